@@ -263,4 +263,56 @@ pub proof fn axiom_be_fun<'a>()
         forall|i: &'a [u8]| be_post(2, i@, #[trigger] fun_of(be_u16)(i), |v: u16| v as int),
         forall|i: &'a [u8], r: IResult<&'a [u8], u32>| #[trigger] be_u24.ensures((i,), r) ==> r == fun_of(be_u24)(i),
         forall|i: &'a [u8]| be_post(3, i@, #[trigger] fun_of(be_u24)(i), |v: u32| v as int),
+        forall|i: &'a [u8], r: IResult<&'a [u8], u32>| #[trigger] be_u32.ensures((i,), r) ==> r == fun_of(be_u32)(i),
+        forall|i: &'a [u8]| be_post(4, i@, #[trigger] fun_of(be_u32)(i), |v: u32| v as int),
 {}
+
+// nom::combinator::opt(f): Error -> Ok((input, None)); Ok -> Some; Incomplete / Failure propagated.   [combinator/mod.rs]
+// nom::combinator::cond(b, f): b ? f wrapped in Some : Ok((input, None)).
+// Functional form (for parser values whose results are those of fun_of).  ASSUMED here; OBLIGATION of Kani shim_opt_cond.
+pub open spec fn opt_map<'a, O>(r0: IResult<&'a [u8], O>, i: &'a [u8]) -> IResult<&'a [u8], Option<O>> {
+    match r0 {
+        Ok((rem, o)) => Ok((rem, Some(o))),
+        Err(Err::Error(_)) => Ok((i, None)),
+        Err(Err::Incomplete(n)) => Err(Err::Incomplete(n)),
+        Err(Err::Failure(e)) => Err(Err::Failure(e)),
+    }
+}
+#[verifier::external_body]
+pub fn opt<'a, O, F: Fn(&'a [u8]) -> IResult<&'a [u8], O>>(f: F) -> (g: impl Fn(&'a [u8]) -> IResult<&'a [u8], Option<O>>)
+    requires forall|i: &'a [u8]| #[trigger] f.requires((i,)),
+             forall|i: &'a [u8], r: IResult<&'a [u8], O>| #[trigger] f.ensures((i,), r) ==> r == fun_of(f)(i),
+    ensures
+        forall|i: &'a [u8]| #[trigger] g.requires((i,)),
+        forall|i: &'a [u8], r: IResult<&'a [u8], Option<O>>| #[trigger] g.ensures((i,), r) ==> r == opt_map(fun_of(f)(i), i),
+        forall|i: &'a [u8], r: IResult<&'a [u8], Option<O>>| #[trigger] g.ensures((i,), r) ==> r == fun_of(g)(i),
+        forall|i: &'a [u8]| #[trigger] fun_of(g)(i) == opt_map(fun_of(f)(i), i),
+{ |i: &'a [u8]| -> IResult<&'a [u8], Option<O>> { unimplemented!() } }
+
+pub open spec fn cond_map<'a, O>(b: bool, r0: IResult<&'a [u8], O>, i: &'a [u8]) -> IResult<&'a [u8], Option<O>> {
+    if b { match r0 { Ok((rem, o)) => Ok((rem, Some(o))), Err(e) => Err(e) } } else { Ok((i, None)) }
+}
+#[verifier::external_body]
+pub fn cond<'a, O, F: Fn(&'a [u8]) -> IResult<&'a [u8], O>>(b: bool, f: F) -> (g: impl Fn(&'a [u8]) -> IResult<&'a [u8], Option<O>>)
+    requires forall|i: &'a [u8]| #[trigger] f.requires((i,)),
+             forall|i: &'a [u8], r: IResult<&'a [u8], O>| #[trigger] f.ensures((i,), r) ==> r == fun_of(f)(i),
+    ensures
+        forall|i: &'a [u8]| #[trigger] g.requires((i,)),
+        forall|i: &'a [u8], r: IResult<&'a [u8], Option<O>>| #[trigger] g.ensures((i,), r) ==> r == cond_map(b, fun_of(f)(i), i),
+{ |i: &'a [u8]| -> IResult<&'a [u8], Option<O>> { unimplemented!() } }
+
+// the u16-length-prefixed block reader as a parser value usable under complete()/opt(): derived facts, proved once
+pub proof fn lemma_length_data_u16_is_fun<'a, G: Fn(&'a [u8]) -> IResult<&'a [u8], &'a [u8]>>(g: G)
+    requires
+        forall|i: &'a [u8]| #[trigger] g.requires((i,)),
+        forall|i: &'a [u8], r: IResult<&'a [u8], &'a [u8]>| #[trigger] g.ensures((i,), r) ==> r == fun_of(g)(i),
+        forall|i: &'a [u8]| length_data_post(fun_of(be_u16)(i), #[trigger] fun_of(g)(i)),
+        forall|i: &'a [u8]| be_post(2, i@, #[trigger] fun_of(be_u16)(i), |v: u16| v as int),
+    ensures is_fun(g),
+{
+    assert forall|j: &'a [u8]| (#[trigger] fun_of(g)(j)) is Ok implies fun_of(g)(j)->Ok_0.0@.len() <= j@.len() by {
+        let r0 = fun_of(be_u16)(j);
+        assert(be_post(2, j@, r0, |v: u16| v as int));
+        assert(length_data_post(r0, fun_of(g)(j)));
+    }
+}
